@@ -120,6 +120,24 @@ NEEDS = {
     "C26r-1": ("C26", "second round: one vertex type with both an edge that takes parameters and an edge that takes none (`_parameters` renamed when ANY edge has no parameters)"),
     "C26r-2": ("C26", "second round: an edge on a vertex type with a list parameter whose elements are nullable scalars (same mechanism as C26-1, written independently)"),
     "C26r-3": ("C26", "second round: an interface that declares at least one edge (no Vertex variant and no as_<iface>() for interfaces)"),
+    "C06r-1": ("C06", "second round: Range x Range intersection whose receiver already has crossing / touching bounds and includes null, argument without null, probe null (early return skips the null rule); only reachable through the hooks"),
+    "C06r-2": ("C06", "second round: a range with both bounds Excluded at the same value and null included, probe null (`> x` and `< x` with the same operand): normalises to Impossible instead of {null}"),
+    "C06r-3": ("C06", "second round: excluding x from the un-normalised point range [x, x] that includes null (also with mixed Int64 / Uint64 end points), probe null"),
+    "C07r-1": ("C07", "second round: one_of / contains / not_one_of / not_contains between a negative Int64 and a Uint64 above i64::MAX with the same bit pattern (compare_i64_to_u64 wraps)"),
+    "C07r-2": ("C07", "second round: within ONE execution, `regex` / `not_regex` with a %tag: a valid pattern, then a context whose pattern is invalid and whose text matches the earlier pattern (stale cached regex); every pair alone is still right"),
+    "C07r-3": ("C07", "second round: `<=` / `>=` with BOTH operands null (only possible with a %tag operand): defined as strict-or-equals, and equals is null-safe"),
+    "C08r-1": ("C08", "second round: ordering of -0.0 vs 0.0 via total_cmp (same mechanism as C08-2, written independently)"),
+    "C08r-2": ("C08", "second round: two distinct list allocations with an Int64 / Uint64 of the same number at the same position: list equality recurses structurally while ordering says Equal"),
+    "C08r-3": ("C08", "second round: two DISTINCT Uint64 values both >= 2^63 compare equal (as_i64() gives None == None) while ordering says Less"),
+    "C17r-1": ("C17", "second round: intersect on two separately constructed types with a base other than String / Int (base names compared by pointer)"),
+    "C17r-2": ("C17", "second round: subtype check by bit mask: a deeper list type whose mask is a bit-superset of the parent's is reported as a subtype (`[Int]` of `Int`); the relation stays a partial order, but contradicts intersect and value monotonicity"),
+    "C17r-3": ("C17", "second round: equal_ignoring_nullability on two lists of different depth with the receiver the shallower one (asymmetric)"),
+    "C24r-1": ("C24", "second round: process-wide last-tagged-regex cache with a check-then-use race (same mechanism as C24-2, written independently)"),
+    "C24r-2": ("C24", "second round: EdgeParameters Arc -> Rc (same mechanism as C24-1, written independently)"),
+    "C24r-3": ("C24", "second round: a shared schema asked about MORE THAN 16 distinct types by concurrent callers of Schema::subtypes() (bounded memo cleared under readers: 'no entry found for key')"),
+    "C27r-1": ("C27", "second round: nested list with an empty / all-null inner list next to a non-empty one (same mechanism as C27-1, written independently)"),
+    "C27r-2": ("C27", "second round: one query that uses the same parameterised edge on the same type twice with different parameter values (converted parameters cached by (type, edge))"),
+    "C27r-3": ("C27", "second round: a Python string ARGUMENT containing a lone surrogate (os.fsdecode of undecodable bytes): silently rewritten with U+FFFD instead of rejected"),
     "C22-1": ("C22", "a lower-bound count filter (>= / >) together with a != / not_one_of filter on the same fold count, both with variables, nothing observing the fold, fold larger than the bound"),
     "C22-2": ("C22", "an outer fold with only lower-bound count filters whose only observed content is a nested fold's count @output, outer fold larger than the bound"),
 }
@@ -167,6 +185,12 @@ def main():
     for sid, prop, needs, det, detections in rows:
         lines.append(f"| {sid} | {prop} | {needs} | {', '.join(det) if det else '**not detected**'} | {len(detections)} |")
     open(f"{root}/README.md", "w").write("\n".join(lines) + "\n")
+    design = open("/verif/DESIGN.md").read()
+    b, e = "<!-- SEEDED-TABLE-BEGIN -->", "<!-- SEEDED-TABLE-END -->"
+    if b in design and e in design:
+        table = "\n".join(l for l in lines if l.startswith("|"))
+        design = design[: design.index(b) + len(b)] + "\n" + table + "\n" + design[design.index(e):]
+        open("/verif/DESIGN.md", "w").write(design)
 
 
 if __name__ == "__main__":
